@@ -316,6 +316,26 @@ def _run(case, out, rig, server, cfg, variant, phone):
         if YowNoiseLayer.EVENT_HANDSHAKE_FAILED not in new_events or not failure:
             out.fail("handshake", "corrupt:failure_not_reported", {"events": [e.split(".")[-1] for e in new_events],
                                                                  "got": [getattr(f, "tag", type(f).__name__) for f in frames]})
+            return out
+        # the failed attempt's connection ends (the server closes it), the announcement is delivered, and the next attempt - whose
+        # server reply is the authentic one - establishes the session: nothing of the failed attempt is left in its way
+        if rig.current is not None and rig.current.up:
+            rig.current.inbox.put(("close",))
+        rig.run()
+        for _ in range(4):
+            if rig.detached_pending() == 0:
+                break
+            rig.post("loop")
+            rig.run()
+        rig.take_client_bytes()
+        server.corrupt_hello = False
+        server.reset()
+        probs = rig.login(chunker)
+        if probs or server.state != "transport":
+            out.fail("handshake", "corrupt:login_after_the_failed_one_incomplete",
+                     {"problems": [str(p)[:200] for p in probs], "server_state": server.state, "stuck": rig.stuck_tasks(), "damage": str(case["corrupt"])})
+            return out
+        out.label("login_after_a_failed_handshake")
         out.info = {"nt": True}
         return out
     if probs:
